@@ -2039,9 +2039,8 @@ func marshalTuple(info TypeInfo, value interface{}) ([]byte, error) {
 				return nil, err
 			}
 
-			n := len(data)
-			buf = appendInt(buf, int32(n))
-			buf = append(buf, data...)
+			// a nil encoding (nil pointer, nil slice, ...) is a null field: length -1
+			buf = appendBytes(buf, data)
 		}
 
 		return buf, nil
@@ -2071,9 +2070,8 @@ func marshalTuple(info TypeInfo, value interface{}) ([]byte, error) {
 				return nil, err
 			}
 
-			n := len(data)
-			buf = appendInt(buf, int32(n))
-			buf = append(buf, data...)
+			// a nil encoding (nil pointer, nil slice, ...) is a null field: length -1
+			buf = appendBytes(buf, data)
 		}
 
 		return buf, nil
@@ -2097,9 +2095,8 @@ func marshalTuple(info TypeInfo, value interface{}) ([]byte, error) {
 				return nil, err
 			}
 
-			n := len(data)
-			buf = appendInt(buf, int32(n))
-			buf = append(buf, data...)
+			// a nil encoding (nil pointer, nil slice, ...) is a null field: length -1
+			buf = appendBytes(buf, data)
 		}
 
 		return buf, nil
